@@ -87,6 +87,9 @@ structure VP where
   nonce : String
   challenge : String
   verifies : Bool
+  /-- JSON-LD presentation (time window of the proof checked with skew by the verifier); `false` = JWT, whose
+      nbf/exp window is part of the `verifies` verdict -/
+  ld : Bool := true
   deriving DecidableEq, Repr
 
 inductive DPoPIn where
@@ -308,7 +311,9 @@ def ldValidAt (skew now created : Nat) (expires : Option Nat) : Bool :=
     JSON-LD proof is evaluated at the current time with the verifier's maxSkew. An absent `created` is Go's zero
     time (earlier than everything). -/
 def vpVerifies (cfg : Cfg) (now : Nat) (vp : VP) : Bool :=
-  vp.verifies && ldValidAt cfg.verifierSkew now (match vp.created with | some c => c | none => 0) vp.expires
+  vp.verifies &&
+    (if vp.ld then ldValidAt cfg.verifierSkew now (match vp.created with | some c => c | none => 0) vp.expires
+     else true)
 
 def verifyAll (cfg : Cfg) (now : Nat) : List VP → Res Unit
   | [] => .ok ()
@@ -542,7 +547,9 @@ def jstr (s : String) : String := "\"" ++ s ++ "\""
 
 def renderDefs (l : List (String × Def)) : String :=
   "{" ++ String.intercalate "," (l.map fun p => p.1 ++ ":" ++ p.2.id) ++ "}"
-def renderSubs (l : List String) : String := "[" ++ String.intercalate "," l ++ "]"
+/-- digest of `presentation_submissions` (a Go map keyed by definition id: rendered in key order) -/
+def renderSubs (l : List String) : String :=
+  "[" ++ String.intercalate "," (sortBy (fun a b => decide (a < b)) l) ++ "]"
 
 def firstReserved : List String → Claims → Option String
   | [], _ => none
